@@ -150,9 +150,18 @@ impl<'a> TryFrom<Token<'a>> for bool {
 
     fn try_from(value: Token<'a>) -> Result<bool, Self::Error> {
         match value {
-            Token::DecimalNumericProgramData(_) => {
+            Token::DecimalNumericProgramData(s) => {
                 // Round numeric to integer, non-zero equals true
-                Ok(<isize>::try_from(value)? != 0)
+                match round_decimal(s) {
+                    Ok(rounded) => Ok(rounded != 0),
+                    // Too large for an integer is still non-zero
+                    Err(lexical_core::Error::Overflow(_))
+                    | Err(lexical_core::Error::Underflow(_)) => Ok(true),
+                    Err(lexical_core::Error::InvalidDigit(_)) => {
+                        Err(ErrorCode::InvalidCharacterInNumber.into())
+                    }
+                    Err(_) => Err(ErrorCode::NumericDataError.into()),
+                }
             }
             Token::CharacterProgramData(s) => {
                 if s.eq_ignore_ascii_case(b"ON") {
